@@ -1,6 +1,7 @@
 #!/bin/bash
 # run the owning property's quick check against every seeded change; prints one line per seed
 cd /verif
+export VERIF_EVIDENCE_DIR=/tmp/verif_sweep/evidence VERIF_REPLAY_OUT=/tmp/verif_sweep/replay; mkdir -p $VERIF_EVIDENCE_DIR $VERIF_REPLAY_OUT
 for d in seeded/*/; do
   m=$(basename $d); p=${m%%_*}
   [ -n "$1" ] && [[ "$m" != $1* ]] && continue
